@@ -22,7 +22,7 @@ from loki.expression import (
     IntLiteral, get_pyrange, LoopRange
 )
 from loki.ir import (
-    Loop, Conditional, Comment, Pragma, FindNodes, Transformer,
+    Loop, Conditional, Comment, Pragma, FindNodes, Transformer, ExitStmt, CycleStmt,
     NestedMaskedTransformer, is_parent_of, is_loki_pragma,
     get_pragma_parameters, pragmas_attached, SubstituteExpressions,
     FindVariables
@@ -655,8 +655,11 @@ class LoopUnrollTransformer(Transformer):
 
         depth = depth - 1 if depth is not None else None
 
+        # EXIT / CYCLE statements would lose their loop
+        has_loop_control = bool(FindNodes((ExitStmt, CycleStmt)).visit(o.body))
+
         # Only unroll if we have all literal bounds and step
-        if is_constant(start) and is_constant(stop) and is_constant(step):
+        if is_constant(start) and is_constant(stop) and is_constant(step) and not has_loop_control:
 
             #  int() to truncate any floats - which are not invalid in all specs!
             unroll_range = get_pyrange(LoopRange((start, stop, step)))
